@@ -233,15 +233,23 @@ def apply_cases(rng, n):
             'bad_test': [{'op': 'test', 'path': '/version', 'value': '2'}],
             'invalidates': [{'op': 'remove', 'path': '/channels'}],
             'move': [{'op': 'copy', 'from': '/observations/0/data', 'path': '/channels/0/samples/0/data'}],
+            # a later operation writes INSIDE a value that an earlier operation of the same patch added
+            'grow_added': [{'op': 'add', 'path': '/channels/0/samples/-', 'value': {'name': 'extra', 'data': [1.0] * nb, 'modifiers': []}},
+                           {'op': 'copy', 'from': '/channels/0/samples/0/modifiers/0', 'path': '/channels/0/samples/2/modifiers/-'}],
+            'edit_replaced': [{'op': 'replace', 'path': '/measurements/0/config', 'value': {'poi': 'mu', 'parameters': []}},
+                              {'op': 'add', 'path': '/measurements/0/config/parameters/-', 'value': {'name': 'mu', 'bounds': [[0.0, 5.0]]}}],
         }
         names = rng.sample(sorted(opsets), 3)
+        if rng.random() < 0.5 and not any(n_ in names for n_ in ('grow_added', 'edit_replaced')):
+            names[rng.randrange(3)] = rng.choice(['grow_added', 'edit_replaced'])
         algs = rng.choice([['md5'], ['sha256'], ['sha256', 'md5'], ['md5', 'sha256']])
         wrong = rng.random() < 0.25
         digests = {a: (ref_digest(ws, a) if not (wrong and a == algs[-1]) else ('0' * (32 if a == 'md5' else 64))) for a in algs}
         doc = {'metadata': {'references': {'hepdata': 'ins1234567'}, 'description': 'd', 'digests': digests, 'labels': ['m']},
                'patches': [{'metadata': {'name': nm, 'values': [k]}, 'patch': opsets[nm]} for k, nm in enumerate(names)], 'version': '1.0.0'}
         key = rng.choice([('name', names[0]), ('name', names[-1]), ('tuple', [1]), ('list', [2.0]), ('name', 'absent'), ('tuple', [9])])
-        out.append(dict(ws=ws, doc=doc, key=key, wrong_digest=wrong))
+        # doc0: pristine copy of the document; expectations are computed from it (the PatchSet object holds references into doc)
+        out.append(dict(ws=ws, doc=doc, doc0=copy.deepcopy(doc), key=key, wrong_digest=wrong))
     return out
 
 
@@ -250,6 +258,7 @@ def impl_apply_on(ps, case):
     import pyhf
     import jsonpatch
     ws, doc, (kind, k) = case['ws'], case['doc'], case['key']
+    doc0 = case.get('doc0') or copy.deepcopy(doc)
     key = tuple(k) if kind == 'tuple' else k
     before = copy.deepcopy(ws)
     try:
@@ -258,12 +267,12 @@ def impl_apply_on(ps, case):
     except Exception as e:
         got = (core.exc_enum(e), None)
     exp = None
-    for a, d in doc['metadata']['digests'].items():
+    for a, d in doc0['metadata']['digests'].items():
         if ref_digest(ws, a) != d:
             exp = ('PatchSetVerificationError', None)
             break
     if exp is None:
-        sel = [p for p in doc['patches'] if (kind == 'name' and p['metadata']['name'] == k) or
+        sel = [p for p in copy.deepcopy(doc0)['patches'] if (kind == 'name' and p['metadata']['name'] == k) or
                (kind != 'name' and tuple(p['metadata']['values']) == tuple(k))]
         if not sel:
             exp = ('InvalidPatchLookup', None)
@@ -280,6 +289,7 @@ def impl_apply(case):
     import pyhf
     import jsonpatch
     ws, doc, (kind, k) = case['ws'], case['doc'], case['key']
+    doc0 = case.get('doc0') or copy.deepcopy(doc)
     key = tuple(k) if kind == 'tuple' else k
     before = copy.deepcopy(ws)
     ps = pyhf.PatchSet(doc)
@@ -290,12 +300,12 @@ def impl_apply(case):
         got = (core.exc_enum(e), None)
     # what the property promises, computed without pyhf.PatchSet: verify (reference digests), look up, jsonpatch, Workspace
     exp = None
-    for a, d in doc['metadata']['digests'].items():
+    for a, d in doc0['metadata']['digests'].items():
         if ref_digest(ws, a) != d:
             exp = ('PatchSetVerificationError', None)
             break
     if exp is None:
-        sel = [p for p in doc['patches'] if (kind == 'name' and p['metadata']['name'] == k) or
+        sel = [p for p in copy.deepcopy(doc0)['patches'] if (kind == 'name' and p['metadata']['name'] == k) or
                (kind != 'name' and tuple(p['metadata']['values']) == tuple(k))]
         if not sel:
             exp = ('InvalidPatchLookup', None)
@@ -481,6 +491,19 @@ def run(ctx):
                           dict(kind='apply', impl=got, expected=exp, theorem='C17_apply_spec', **c))
             found_concrete = True
         sigs.add('a' + json.dumps([c['key'], [p['metadata']['name'] for p in c['doc']['patches']], c['wrong_digest']]))
+        # the same call once more on a PatchSet that has already applied each of its patches once: still the patch as written
+        if got[0] == 'ok' and got == exp:
+            import pyhf
+            c2 = dict(c, doc=copy.deepcopy(c['doc0']))
+            ps2 = pyhf.PatchSet(c2['doc'])
+            first = [impl_apply_on(ps2, dict(c2, key=('name', p['metadata']['name'])))[0][0] for p in c2['doc0']['patches']]
+            got2, exp2, mut2 = impl_apply_on(ps2, c2)
+            astats['repeat'] = astats.get('repeat', 0) + 1
+            if got2 != exp2:
+                ctx.violation('apply:differs-on-repeat', 'the second PatchSet.apply with key %r on the same PatchSet object does not return the workspace patched as written '
+                              '(the first application wrote into the stored patch: patch-set document %s)' % (c['key'][1], 'modified' if c2['doc'] != c2['doc0'] else 'unchanged'),
+                              dict(kind='apply-repeat', impl=got2, expected=exp2, first_round=first, theorem='C17_apply_spec', ws=c['ws'], doc0=c['doc0'], key=c['key']))
+                found_concrete = True
 
     # ---- correspondence 4: histories on ONE PatchSet and ONE workspace object: every call is decided by its current arguments ----
     import pyhf
@@ -527,10 +550,10 @@ def run(ctx):
                 r, exp = got[0], ex[0]
                 if got != ex:
                     r = r + ':different-result'
-            hist.append([op, r])
+            hist.append([op, r] + ([key] if op == 'apply' else []))
             if r != exp:
                 ctx.violation('history:%s:%s-vs-%s' % (op, r, exp), 'after the history %r, %s gives %s where the stateless rule gives %s' % (hist[:-1], op, r, exp),
-                              dict(kind='history', ws=c['ws'], doc=doc, history=hist, expected=exp, theorem='C17_verify_iff (apply/verify depend on their arguments only)'))
+                              dict(kind='history', ws=c['ws'], doc=c['doc0'], history=hist, expected=exp, theorem='C17_verify_iff (apply/verify depend on their arguments only)'))
                 found_concrete = True
                 break
         hstats['histories'] += 1
@@ -549,6 +572,14 @@ def run(ctx):
                                  dict(verify_case=vcases[1][3], ws=vcases[1][2], impl=vimpl[1][0])])
 
 
+def _try(f):
+    try:
+        f()
+        return 'ok'
+    except Exception as e:
+        return core.exc_enum(e)
+
+
 def replay(body):
     kind = body.get('kind')
     if kind == 'construct':
@@ -556,7 +587,35 @@ def replay(body):
     elif kind == 'verify':
         print(impl_verify(body['digests'], body['ws']))
     elif kind == 'apply':
+        if body.get('doc0'):
+            body = dict(body, doc=copy.deepcopy(body['doc0']))
         print(impl_apply(body)[:2])
+    elif kind == 'apply-repeat':
+        import pyhf
+        doc = copy.deepcopy(body['doc0'])
+        ps = pyhf.PatchSet(doc)
+        c = dict(ws=body['ws'], doc=doc, doc0=body['doc0'], key=body['key'])
+        for p in body['doc0']['patches']:
+            impl_apply_on(ps, dict(c, key=('name', p['metadata']['name'])))
+        got, ex, _ = impl_apply_on(ps, c)
+        print('second application equals the patch as written:', got == ex, ' patch-set document unchanged:', doc == body['doc0'])
+    elif kind == 'history':
+        import pyhf
+        doc0 = body['doc']
+        ps = pyhf.PatchSet(copy.deepcopy(doc0))
+        ws = copy.deepcopy(body['ws'])
+        orig = None
+        for h in body['history']:
+            if h[0] == 'corrupt':
+                orig = ws['observations'][0]['data'][0] if orig is None else orig
+                ws['observations'][0]['data'][0] = orig + 1.0
+            elif h[0] == 'restore' and orig is not None:
+                ws['observations'][0]['data'][0] = orig
+            elif h[0] == 'apply':
+                got, ex, mut = impl_apply_on(ps, dict(ws=ws, doc=doc0, doc0=doc0, key=('name', h[2] if len(h) > 2 else doc0['patches'][0]['metadata']['name'])))
+                print('apply ->', got[0], ' stateless rule ->', ex[0], ' same result:', got == ex)
+            elif h[0] == 'verify':
+                print('verify ->', impl_apply_on.__name__ and _try(lambda: ps.verify(ws)))
     else:
         print(body.get('detail'))
     return 0
